@@ -7,6 +7,9 @@ if "/verif" not in sys.path:
 from pyshim.install import install
 
 install()
+import awkward as _ak
+
+assert _ak.__file__.startswith("/repo/src/") and getattr(_ak._ext, "__pyshim__", False), _ak.__file__
 
 
 def pytest_report_header(config):
